@@ -23,6 +23,8 @@ static void cfg_fields(vh::Out &o, const Call &c, int S, int nth)
     o.num("nth", nth);
 }
 
+static std::map<int, std::vector<uint64_t>> Krows;
+
 static Call parse_call(const std::vector<std::string> &t, size_t i)
 {
     Call c;
@@ -80,6 +82,40 @@ static void do_case(vh::Out &o, const std::vector<std::string> &t)
         }
         return;
     }
+    if (t[0] == "S")
+    {
+        // sampled rows of a large transform: S <id> <call> <S> <d> <e> <ncols> <nphase> <nblock> <dst> <buf> <nth>
+        long long id = atoll(t[1].c_str());
+        int S = atoi(t[3].c_str());
+        int nth = atoi(t[11].c_str());
+        Call c = parse_call(t, 2);
+        c.nphase = bigval(c.nphase);
+        c.nblock = bigval(c.nblock);
+        NTT_Goldilocks obj(1ULL << S, nth);
+        Result r = run_call(obj, c);
+        int dd = c.d + (c.call == "ext" ? c.e : 0);
+        const std::vector<uint64_t> &K = Krows[dd];
+        std::vector<uint64_t> rows;
+        for (uint64_t k : K)
+            for (uint64_t col = 0; col < c.ncols; col++)
+                rows.push_back(r.out[k * c.ncols + col]);
+        // everything else is summarised by a digest so that a second run can be compared bit for bit
+        uint64_t h = 0xcbf29ce484222325ULL;
+        for (uint64_t x : r.out)
+        {
+            h ^= (x >= vh::PRIME ? x - vh::PRIME : x); // canonical value: configurations may legitimately differ in representation
+            h *= 0x100000001b3ULL;
+        }
+        o.begin("trs");
+        o.num("ci", id);
+        cfg_fields(o, c, S, nth);
+        o.w64arr("out", rows.data(), rows.size());
+        o.w64("canon_digest", h);
+        o.boolean("src_same", r.src_same);
+        o.boolean("slack_ok", r.slack_ok);
+        o.end();
+        return;
+    }
     long long id = atoll(t[0].c_str());
     int S = atoi(t[2].c_str());
     int nth = atoi(t[10].c_str());
@@ -116,6 +152,9 @@ int main(int argc, char **argv)
         else if (t[0] == "M")
             for (size_t i = 2; i < t.size(); i++)
                 Mc.push_back(vh::parse_u64(t[i]));
+        else if (t[0] == "K")
+            for (size_t i = 2; i < t.size(); i++)
+                Krows[atoi(t[1].c_str())].push_back(vh::parse_u64(t[i]));
     }
     auto cases = vh::read_cases(argv[2]);
     {
@@ -183,7 +222,7 @@ int main(int argc, char **argv)
             o.f = fopen(argv[3], "a");
             const auto &t = cases[i];
             o.begin("crash");
-            o.num("ci", atoll(t[t[0] == "H" ? 1 : 0].c_str()));
+            o.num("ci", atoll(t[(t[0] == "H" || t[0] == "S") ? 1 : 0].c_str()));
             std::string line;
             for (auto &s : t)
                 line += s + " ";
